@@ -69,6 +69,46 @@ def expected_hw(node, env, salt, feats):
     return anc + max(moments)
 
 
+def flow_request(node, env, salt):
+    """the VALUES the running-flow loop of calculate_highwater works on, read off the real compiled node at a numeric point
+    (total sizes of input+through / output+through ports of the node and of each child in sorted_children() order, each
+    child's own compiled highwater) as a request line for the Lean model `highwaterImpl`"""
+    def total(r, dirs):
+        return sum((E.sympy_ev(p.size, dict(env), salt) for p in r.ports.values() if p.direction in dirs), Fraction(0))
+
+    def fr(q):
+        return f"{q.numerator}/{q.denominator}"
+
+    anc = E.sympy_ev(node.resources["local_ancillae"].value, dict(env), salt) if "local_ancillae" in node.resources else Fraction(0)
+    kids = " ".join(f"({fr(total(c, ('input', 'through')))} {fr(total(c, ('output', 'through')))} "
+                    f"{fr(E.sympy_ev(c.resources['qubit_highwater'].value, dict(env), salt))})" for c in node.sorted_children())
+    return f"highwater {fr(anc)} {fr(total(node, ('input', 'through')))} {fr(total(node, ('output', 'through')))} {kids}"
+
+
+def model_correspondence(cr, env, salt, res, case):
+    from .. import model
+
+    reqs, gots, where = [], [], []
+    for path, node in walk(cr):
+        try:
+            reqs.append(flow_request(node, env, salt))
+            gots.append(E.sympy_ev(node.resources["qubit_highwater"].value, dict(env), salt))
+            where.append(path)
+        except (E.Undefined, OverflowError, KeyError):
+            if len(reqs) > len(gots):
+                reqs.pop()
+    if not reqs:
+        return
+    for path, rq, got, r in zip(where, reqs, gots, model.run_driver(reqs)):
+        res.stats["model_vs_impl_compared"] += 1
+        if r[0] != "ok":
+            res.disagreement("calculate_highwater vs Bartiq.highwaterImpl (request)", {"qref": case.qref, "point": env, "request": rq}, str(r), str(got))
+            continue
+        mv = Fraction(int(r[1]), int(r[2]))
+        if not compare.close(got, mv, True):
+            res.disagreement("calculate_highwater vs Bartiq.highwaterImpl", {"qref": case.qref, "point": env, "node": ".".join(path) or "root", "request": rq}, str(mv), str(got))
+
+
 def oracle(case, res, extra):
     if case.status != "ok":
         return
@@ -87,6 +127,8 @@ def oracle(case, res, extra):
                 # domain of the property: non-negative port sizes
                 if any(E.sympy_ev(p.size, dict(env), salt) < 0 for p in node.ports.values()):
                     raise E.Undefined("negative size")
+            if k == 0:
+                model_correspondence(cr, env, salt, res, case)
             for path, node in walk(cr):
                 exp = expected_hw(node, env, salt, feats)
                 got = E.sympy_ev(node.resources["qubit_highwater"].value, dict(env), salt)
